@@ -9,6 +9,7 @@ package main
 import (
 	"context"
 	"fmt"
+	"net"
 	"strings"
 	"sync/atomic"
 	"time"
@@ -138,6 +139,34 @@ func (w *world) op(name string) bool {
 			for atomic.LoadInt32(&w.expLive) > 0 && time.Now().Before(deadline) {
 				time.Sleep(200 * time.Microsecond)
 			}
+		}
+	case "@ibb-write":
+		// a local Write on an accepted stream, in a goroutine of the application: on a
+		// stream acknowledged by IQs it sends its data and parks until the peer
+		// acknowledges, holding the stream's write lock (this peer does not acknowledge)
+		var c net.Conn
+		deadline := time.Now().Add(time.Second)
+		for c == nil && time.Now().Before(deadline) {
+			w.stMu.Lock()
+			if len(w.conns) > 0 {
+				c = w.conns[len(w.conns)-1]
+			}
+			w.stMu.Unlock()
+			if c == nil {
+				time.Sleep(200 * time.Microsecond)
+			}
+		}
+		if c != nil {
+			w.note("AWWrite")
+			go func() {
+				hx.Catch(func() {
+					_, _ = c.Write([]byte("hello from the application"))
+					if f, ok := c.(interface{ Flush() error }); ok {
+						_ = f.Flush()
+					}
+				})
+			}()
+			w.settle()
 		}
 	case "@ibb-conn-close":
 		w.stMu.Lock()
